@@ -176,74 +176,102 @@ def anomaly(ck, key, what, relaxed, cfg):
                  files={"trace.ndjson": p, "schedule.ndjson": w}, text=v2["cex"])
 
 
+def histogram(recs):
+    h = {}
+    for r in recs:
+        if r["a"] == "Reset":
+            continue
+        k = r["a"] + ("" if r.get("ok", 1) else ":fail")
+        h[k] = h.get(k, 0) + 1
+    return h
+
+
 def run(ck):
     thorough = ck.tier == "thorough"
     W = min(8, core.NCPU)
+    skip = os.environ.get("C07_DEV_SKIP", "").split(",")   # development only: mc,gen,random,anomaly
 
     # ---------------------------------------------------------------- (a) model checking
+    # universe: incoming channels {hop.Source, 1} x 2 ids, one outgoing channel x 2 ids (resp. two
+    # outgoing channels); bounds fitted to measured state counts (see the report in DESIGN/brief)
     small = universe_consts([0, 1], [2], 2, 2, 2)
+    two_out = dict(small, InChans="{1}", OutChans="{2, 3}")
     base = dict(Relaxed="{}")
-    configs = [
-        ("sequential deep", dict(small, Threads="{1}", MaxBatch=1, MaxOps=5, MaxCrash=1, MaxFail=1)),
-        ("two threads", dict(small, MaxOps=3, MaxCrash=1, MaxFail=1)),
-    ]
-    if thorough:
+    if not thorough:
         configs = [
-            ("sequential deep", dict(small, Threads="{1}", MaxBatch=1, MaxOps=6, MaxCrash=1, MaxFail=1)),
-            ("sequential, two crashes", dict(small, Threads="{1}", MaxBatch=2, MaxOps=4, MaxCrash=2, MaxFail=2)),
-            ("two threads", dict(small, MaxOps=4, MaxCrash=1, MaxFail=1)),
-            ("three threads", dict(small, Threads="{1, 2, 3}", MaxBatch=1, MaxOps=3, MaxCrash=1, MaxFail=1)),
+            ("sequential, 5 calls", dict(small, Threads="{1}", MaxBatch=1, MaxOps=5, MaxCrash=1, MaxFail=1)),
+            ("two threads, 3 calls, batches of 2", dict(small, MaxOps=3, MaxCrash=1, MaxFail=1)),
+            ("three threads, 3 calls", dict(small, Threads="{1, 2, 3}", MaxBatch=1, MaxOps=3, MaxCrash=1, MaxFail=1)),
+            ("two outgoing channels, 3 calls", dict(two_out, MaxBatch=1, MaxOps=3, MaxCrash=1, MaxFail=1)),
         ]
-    skip = os.environ.get("C07_DEV_SKIP", "").split(",")   # development only: mc,gen,random
+    else:
+        configs = [
+            ("sequential, 7 calls", dict(small, Threads="{1}", MaxBatch=1, MaxOps=7, MaxCrash=1, MaxFail=1)),
+            ("sequential, 3 calls, batches of 2, two crashes, two write failures",
+             dict(small, Threads="{1}", MaxBatch=2, MaxOps=3, MaxCrash=2, MaxFail=2)),
+            ("two threads, 4 calls, batches of 2", dict(small, MaxOps=4, MaxCrash=1, MaxFail=1)),
+            ("three threads, 4 calls", dict(small, Threads="{1, 2, 3}", MaxBatch=1, MaxOps=4, MaxCrash=1, MaxFail=1)),
+            ("two outgoing channels, 4 calls, batches of 2", dict(two_out, MaxBatch=2, MaxOps=4, MaxCrash=1, MaxFail=1)),
+            ("three ids, sequential, 5 calls", dict(small, Ids="{0, 1, 2}", Threads="{1}", MaxBatch=1, MaxOps=5,
+                                                    MaxCrash=1, MaxFail=1)),
+        ]
     if "mc" in skip:
         configs = []
-    for what, c in configs:
+    for i, (what, c) in enumerate(configs):
         ck.model_check(SPEC, "CircuitMapMC", "CircuitMapMC.cfg", "CircuitMap " + what,
-                       constants=dict(base, **c), name="mc_" + what.replace(" ", "_").replace(",", ""),
-                       timeout=2400, workers=W)
+                       constants=dict(base, **c), name="mc_%d" % (i + 1), timeout=2400, workers=W)
     ck.cov["exhaustive"] = True
+    ck.cov["invariants"] = INVS.split()
 
     total = 0
     # ---------------------------------------------------------------- (b) generated schedules
-    inch, outch, nids = [0, 1], [2, 3], 3
     if "gen" not in skip:
-        total += generated(ck, thorough, base, inch, outch, nids)
+        total += generated(ck, thorough, base)
     # ---------------------------------------------------------------- (c) free-running seeded driver
     if "random" not in skip:
         total += seeded(ck, thorough, base)
     ck.cov["traces_validated_against_impl"] += total
-    finish_sections(ck, thorough)
+    # ---------------------------------------------------------------- (e) anomalies outside the assumptions
+    if thorough and "anomaly" not in skip:
+        anomalies(ck)
+    describe(ck)
 
 
-def generated(ck, thorough, base, inch, outch, nids):
+def generated(ck, thorough, base):
+    inch, outch, nids = [0, 1], [2, 3], 3
     gconsts = dict(universe_consts(inch, outch, nids, 2, 2), **base)
-    num = 400 if thorough else 90
-    files = ck.generate(SPEC, "CircuitMapGen", "CircuitMapGen.cfg", num, 80,
-                        constants=dict(gconsts, MaxLen=70, CloseAfter=30, CrashEvery=16, Thin="TRUE"), name="gen", timeout=1200)
+    num, maxlen = (1000, 90) if thorough else (160, 80)
+    files = ck.generate(SPEC, "CircuitMapGen", "CircuitMapGen.cfg", num, maxlen + 5,
+                        constants=dict(gconsts, MaxLen=maxlen, CloseAfter=maxlen // 2, CrashEvery=maxlen // 5,
+                                       Thin="TRUE"), name="gen", timeout=1500)
     sched = os.path.dirname(files[0])
     res, recs = execute(ck, "TestVerifC07CircuitMap",
                         dict(VERIF_SCHED=sched, VERIF_C07_IN="0,1", VERIF_C07_OUT="2,3", VERIF_C07_IDS=nids),
                         "exec_gen")
-    tconsts = dict(gconsts)
     ok_all = True
     for bi, batch in enumerate(core.split_batches(recs, is_reset, 6_000_000)):
-        v = validate(ck, batch, tconsts, "val_gen_%d" % bi, "generated schedule")
+        v = validate(ck, batch, gconsts, "val_gen_%d" % bi, "generated schedule")
         ok_all = ok_all and v["ok"]
     total = sum(1 for r in recs if is_reset(r))
     ck.cov["evaluations"] += len(recs) - total
     ck.cov["distinct_nontrivial"] += distinct_behaviours(recs)
+    ck.cov["steps_generated"] = histogram(recs)
     dead_driver_check(ck, ok_all)
     if ok_all:
-        negative_control(ck, recs, tconsts)
-    ck.cov["samples"].append({"generated": [
-        {k: r[k] for k in ("a", "t", "ins", "outs", "ok", "err", "adds", "drops", "fails")}
-        for r in recs[1:9]]})
+        negative_control(ck, recs, gconsts)
+    keep = ("a", "t", "ins", "outs", "c", "ok", "err", "adds", "drops", "fails", "np", "no")
+    i = next((k for k, r in enumerate(recs) if r["a"] == "CommitRollback"), 1)
+    ck.cov["samples"].append({"generated schedule, around a failed batch": [
+        {k: r[k] for k in keep} for r in recs[max(1, i - 2):i + 2]]})
+    j = next((k for k, r in enumerate(recs) if r["a"] == "StartTrim" and r["done"] == 1 and r["pend"]), None)
+    if j:
+        ck.cov["samples"].append({"after a restart": {k: recs[j][k] for k in ("a", "c", "pend", "opened", "dadds", "dkeys")}})
     return total
 
 
 def seeded(ck, thorough, base):
     rin, rout, rids, rthr, rbatch = [0, 1, 4], [2, 3], 3, 3, 3
-    runs, steps = (150, 120) if thorough else (40, 90)
+    runs, steps = (500, 150) if thorough else (100, 100)
     res2, recs2 = execute(ck, "TestVerifC07Random",
                           dict(VERIF_C07_IN="0,1,4", VERIF_C07_OUT="2,3", VERIF_C07_IDS=rids,
                                VERIF_C07_THREADS=rthr, VERIF_C07_BATCH=rbatch,
@@ -257,46 +285,50 @@ def seeded(ck, thorough, base):
     n2 = sum(1 for r in recs2 if is_reset(r))
     ck.cov["evaluations"] += len(recs2) - n2
     ck.cov["distinct_nontrivial"] += distinct_behaviours(recs2)
+    ck.cov["steps_seeded"] = histogram(recs2)
     return n2
 
 
-def finish_sections(ck, thorough):
-    # ---------------------------------------------------------------- (e) API-level anomalies
-    if thorough:
-        anomaly(ck, "H9:commit-during-inflight-delete",
-                "API level (the switch never issues this order): CommitCircuits(k) while DeleteCircuits(k) is "
-                "between its memory and its disk phase answers Adds for k a second time",
-                '{"A3"}', "CircuitMapWitnessH9.cfg")
-        anomaly(ck, "H10:closed-channel-purge-leaves-gap-before-uncommitted-keystone",
-                "a channel is fully closed while one of its circuits holds a keystone that never reached a "
-                "commitment: cleanClosedChannels purges that keystone, the trim scan of the outgoing channel stops "
-                "at the gap, and a younger uncommitted keystone of the same outgoing channel survives the restart "
-                "(the circuit stays open instead of being rolled back to half-open)",
-                '{"A6"}', "CircuitMapWitnessH10.cfg")
-        anomaly(ck, "H11:trim-write-failure-not-rolled-back",
-                "the transaction of a run-time TrimOpenCircuits fails: the error is returned but the keystones stay "
-                "cleared in memory and stay on disk; after the half-open circuit below is deleted and the node "
-                "restarts, the stale keystone above the gap is restored and not trimmed",
-                '{"TrimFail"}', "CircuitMapWitnessH11.cfg")
+def anomalies(ck):
+    anomaly(ck, "H9:commit-during-inflight-delete",
+            "API level (the switch never issues this order): CommitCircuits(k) while DeleteCircuits(k) is "
+            "between its memory and its disk phase answers Adds for k a second time",
+            '{"A3"}', "CircuitMapWitnessH9.cfg")
+    anomaly(ck, "H10:closed-channel-purge-leaves-gap-before-uncommitted-keystone",
+            "a channel is fully closed while one of its circuits holds a keystone that never reached a "
+            "commitment: cleanClosedChannels purges that keystone, the trim scan of the outgoing channel stops "
+            "at the gap, and a younger uncommitted keystone of the same outgoing channel survives the restart "
+            "(the circuit stays open instead of being rolled back to half-open)",
+            '{"A6"}', "CircuitMapWitnessH10.cfg")
+    anomaly(ck, "H11:trim-write-failure-not-rolled-back",
+            "the transaction of a run-time TrimOpenCircuits fails: the error is returned but the keystones stay "
+            "cleared in memory and stay on disk; after the half-open circuit below is deleted and the node "
+            "restarts, the stale keystone above the gap is restored and not trimmed",
+            '{"TrimFail"}', "CircuitMapWitnessH11.cfg")
 
+
+def describe(ck):
     ck.cov["rule"] = ("schedules = sequences of phase-level steps (memory phase / transaction ok|fail / rollback|apply "
                       "of Commit, Open, Trim, Delete; Close; Fail; htlc-index advance; channel closed; resolution "
                       "message; Crash; the three phases of NewCircuitMap) generated by TLC -simulate from CircuitMapGen "
-                      "and by the seeded driver; each replayed on the real circuit map over bolt; distinct = distinct "
-                      "step sequences with at least one committed durable write")
+                      "(2 threads) and by the seeded driver (3 threads, larger universe); each replayed on the real "
+                      "circuit map over bolt; distinct = distinct step sequences with at least one committed durable write")
     ck.cov["trusted_base"] = ["TLC 1.8.0", "CommunityModules Json",
                               "executor projection (LookupCircuit/LookupOpenCircuit over the universe, closed map, "
-                              "NumPending/NumOpen, raw bucket contents)",
+                              "NumPending/NumOpen, raw contents of the circuit-adds and circuit-keystones buckets)",
                               "verifkit.DB: kvdb.Batch arrives as one Update (no coalescing)",
                               "park points immediately before/after each transaction = the code's own critical sections"]
     ck.assumptions += [
         "A1 callers learn of a circuit only from the Adds answer (no Open/Fail/Delete of a key whose commit is in flight)",
-        "A2 the memory phase of DeleteCircuits is the point where a key is forgotten (counters reset there)",
+        "A2 the memory phase of DeleteCircuits is the point where a key is forgotten (the at-most-once counters reset there)",
         "A3 SwitchFaithful: a key is not re-committed while its delete is in flight (else H9)",
-        "A4 a link is one goroutine: no overlapping Open/Trim on one channel; no Delete of a circuit whose Open is in flight",
+        "A4 a link is one goroutine and a circuit belongs to one outgoing link: no overlapping Open/Trim on a channel, "
+        "no Open/Delete of a circuit that an Open/Trim/Delete in flight touches",
         "A5 a circuit whose outgoing htlc has not reached a commitment is not deleted (it cannot have been answered)",
         "A6 ClosePatient: a channel is not FULLY closed while one of its circuits holds an uncommitted keystone (else H10)",
-        "the write of a run-time TrimOpenCircuits does not fail (TrimMayFail = FALSE; else H11); its failure inside NewCircuitMap is modelled",
+        "the transaction of a run-time TrimOpenCircuits does not fail (else H11); its failure inside NewCircuitMap is modelled",
+        "H4: OpenCircuits batches are well formed (distinct keys, circuits without keystone, next free ids of one channel)",
         "kvdb.Batch coalescing is disabled by the wrapper: each call is its own transaction",
-        "at most-one-response is per process lifetime (the closed set is volatile by design)",
+        "at-most-one-response is per process lifetime (the closed set is volatile by design; across a restart the "
+        "duplicate is stopped by the incoming channel's update log - C08)",
     ]
